@@ -417,3 +417,58 @@ def rule_childnodes(P) -> RuleResult:
     if n < 6:
         raise AnalysisError(f'only {n} evaluator classes with operand parameters found')
     return res
+
+
+# ----------------------------------------------------------------------
+# R-ACCESSEVAL (C01, C11): what a subscript / attribute node computes on a non-NULL container
+
+def rule_accesseval(P) -> RuleResult:
+    """EvalGetItem, EvalGetter, GetItem2 and GetItem3 on terms with a non-NULL container: `x[key]` is the dictionary's entry for that
+    key, NULL when the key is missing (dict.get: never a KeyError); getitem(x, key, default) gives the default then; `x.field` applies
+    the field getter of the structure to the value.  (R-NULLSTRICT decides the NULL container; R-ACCESSNODE which node is built.)"""
+    res = RuleResult('R-ACCESSEVAL')
+    res.exhaustive = True
+    qc = P.module('beanquery.query_compile')
+    qe = P.module('beanquery.query_env')
+    NODE, ROW, VALUE = Sym('NODE'), Sym('ROW'), Sym('CONTAINER_VALUE')
+    KEYV, DEFV = Sym('KEY_VALUE'), Sym('DEFAULT_VALUE')
+    cases = (
+        (qc, 'EvalGetItem', lambda: {T('call', (f'{show(VALUE)}.get', (T('attr', (NODE, 'key')),), ())),
+                                     T('call', (f'{show(VALUE)}.get', (T('attr', (NODE, 'key')), None), ()))}, 'container.get(key)'),
+        (qc, 'EvalGetter', lambda: {T('call', (show(T('attr', (NODE, 'getter'))), (VALUE,), ()))}, 'getter(container)'),
+        (qe, 'GetItem2', lambda: {T('call', (f'{show(VALUE)}.get', (KEYV,), ())), T('call', (f'{show(VALUE)}.get', (KEYV, None), ()))}, 'container.get(key)'),
+        (qe, 'GetItem3', lambda: {T('call', (f'{show(VALUE)}.get', (KEYV, DEFV), ()))}, 'container.get(key, default)'),
+    )
+    for mod, cname, want, words in cases:
+        ci = mod.classes.get(cname)
+        call = ci.methods.get('__call__') if ci else None
+        if call is None:
+            raise AnalysisError(f'anchor vanished: {cname}.__call__')
+        OPS = [Sym('OPERAND_NODE0'), Sym('OPERAND_NODE1'), Sym('OPERAND_NODE2')]
+
+        def on_attr(base, attr, ex):
+            if base == NODE and attr == 'operand':
+                return OPS[0]
+            if base == NODE and attr == 'operands':
+                return SList(OPS[:2] if cname == 'GetItem2' else OPS)
+            return NotImplemented
+
+        def on_call(fn, fv, rc, a, k, ex, nd):
+            if fv in OPS and tuple(a) == (ROW,):
+                return (VALUE, KEYV, DEFV)[OPS.index(fv)]
+            return NotImplemented
+        n = 0
+        good = True
+        for p in Engine(P, on_attr=on_attr, on_call=on_call).paths(call, {'self': NODE, call.params[1]: ROW}):
+            if any(t == T('cmp', ('is', VALUE, None)) and o or t == T('cmp', ('is not', VALUE, None)) and not o for t, o in p.decisions):
+                continue
+            n += 1
+            if p.outcome != 'return' or p.value not in want():
+                good = False
+                res.fail(call.fq, 'accesseval:value', f'{cname} on a non-NULL container is {words}; it '
+                         f'{"gives `" + show(p.value)[:80] + "`" if p.outcome == "return" else "raises " + str(p.value[0])}', loc(call))
+        if n == 0:
+            raise AnalysisError(f'{call.fq}: no path for a non-NULL container')
+        if good:
+            res.ok({'evaluator': cname, 'non_null_container': words})
+    return res
